@@ -280,11 +280,26 @@ impl HttpClient {
         request
     }
 
+    /// Verification seam: ask the installed simulator backend to serve the
+    /// request (URL and merged headers as the real transport would send them).
+    #[cfg(gamedig_verif)]
+    fn verif_request(&self, method: &str, headers: HttpHeaders) -> Option<std::io::Result<Vec<u8>>> {
+        let mut all: Vec<(String, String)> = self.headers.clone();
+        if let Some(headers) = headers {
+            all.extend(headers.iter().map(|(k, v)| (k.to_string(), v.to_string())));
+        }
+        crate::verif_hook::http_request(method, self.address.as_str(), &all)
+    }
+
     /// Internal request method, makes a request with an arbitrary HTTP method.
     #[inline]
     fn request(&mut self, method: &str, path: &str, headers: HttpHeaders) -> GDResult<Vec<u8>> {
         // Append the path to the pre-parsed URL and create a request object.
         self.address.set_path(path);
+        #[cfg(gamedig_verif)]
+        if let Some(result) = self.verif_request(method, headers) {
+            return result.map_err(|e| PacketSend.context(e));
+        }
         let request = self.make_request(method, headers);
 
         // Send the request.
@@ -315,6 +330,11 @@ impl HttpClient {
     fn request_json<T: DeserializeOwned>(&mut self, method: &str, path: &str, headers: HttpHeaders) -> GDResult<T> {
         // Append the path to the pre-parsed URL and create a request object.
         self.address.set_path(path);
+        #[cfg(gamedig_verif)]
+        if let Some(result) = self.verif_request(method, headers) {
+            let body = result.map_err(|e| PacketSend.context(e))?;
+            return serde_json::from_slice::<T>(&body).map_err(|e| ProtocolFormat.context(e));
+        }
         let request = self.make_request(method, headers);
 
         // Send the request and parse the response as JSON.
